@@ -46,3 +46,5 @@ mod c18;
 mod c19;
 #[cfg(kani)]
 mod c20;
+#[cfg(kani)]
+mod c04p;
